@@ -170,6 +170,21 @@ def gen_case(rng, tier, kind=None):
             rng.shuffle(y)
             case["y"] = y
             case["yform"] = rng.choice(["array", "list"])
+    # valid-but-unusual input forms: Fortran order, a strided view of a larger buffer,
+    # single precision, and (for labelled kinds) other integer label containers
+    r = rng.random()
+    if r < 0.06:
+        case["xform"] = "fortran"
+    elif r < 0.12:
+        case["xform"] = "strided"
+    elif r < 0.16 and kind in ("kmeans", "gmm_ml", "gmm_map"):
+        case["xform"] = "float32"
+        case["K"] = min(case.get("K", 1), 3)
+    if "y" in case and rng.random() < 0.2:
+        case["ydtype"] = rng.choice(["int32", "int16", "uint8", "tuple"])
+    if kind in ("kmeans", "gmm_ml", "gmm_map") and case.get("thr") not in (None, 0.0) \
+            and rng.random() < 0.08:
+        case["K"] = rng.randint(20, 40)  # a long training that the threshold has to stop
     case["sched"] = gen_sched(rng)
     case["xmodes"] = rng.random() < 0.5
     return case
@@ -382,6 +397,11 @@ def _fit_once(case, m, X, reverse=False):
 def _labels(case, dask, reverse=False):
     y = case["y"][::-1] if reverse else case["y"]
     f = case.get("yform", "array")
+    yd = case.get("ydtype")
+    if yd == "tuple":
+        return tuple(y)
+    if yd is not None and f != "dask":
+        return np.array(y, dtype=getattr(np, yd))
     if f == "list":
         return list(y)
     if f == "dask" and dask:
@@ -398,9 +418,29 @@ def _dask_X(case, X, reverse=False):
 # ---------------------------------------------------------------------------
 # the run
 # ---------------------------------------------------------------------------
+def _xform(case, X):
+    f = case.get("xform")
+    if f == "fortran":
+        return np.asfortranarray(X)
+    if f == "strided":
+        big = np.zeros((X.shape[0] * 2, X.shape[1] + 1))
+        big[::2, :-1] = X
+        return big[::2, :-1]
+    if f == "float32":
+        return X.astype(np.float32)
+    return X
+
+
 def run_case(case, replay=None):
     kind = case["kind"]
-    X = A(case["X"])
+    X = _xform(case, A(case["X"]))
+    # single precision: block-wise and whole-array sums legitimately differ at ~1e-7
+    tol = 1e-4 if case.get("xform") == "float32" else TOL
+    tol_modes = TOL_MODES
+
+    def fresh():
+        return _xform(case, A(case["X"]))
+
     s = float(np.abs(X).max()) or 1.0
     rec = SimRec(replay)
     iterative = kind in ("kmeans", "gmm_ml", "gmm_map", "gmm_kminit")
@@ -423,9 +463,9 @@ def run_case(case, replay=None):
     if kind == "kmeans" and isinstance(case["cfg"]["init"], str):
         try:
             with dask.config.set(scheduler="synchronous"), np.errstate(all="ignore"):
-                init_mem = np.asarray(_fit(case, _make(case, 0, None), X.copy()).centroids_, float)
+                init_mem = np.asarray(_fit(case, _make(case, 0, None), fresh()).centroids_, float)
             init_dask = rec.run(sched, lambda: np.asarray(
-                _fit(case, _make(case, 0, None), _dask_X(case, X.copy())).centroids_, float),
+                _fit(case, _make(case, 0, None), _dask_X(case, fresh())).centroids_, float),
                 label="init")
         except HarnessError:
             raise
@@ -433,7 +473,7 @@ def run_case(case, replay=None):
             init_mem = init_dask = None
         if init_mem is not None:
             dv = rel_diff(init_mem, init_dask, scale=s)
-            if dv > TOL:
+            if dv > tol:
                 init_violation = Result.violation(
                     "init-chunk-dependent",
                     {"kind": kind, "init": case["cfg"]["init"], "chunks": case["chunks"],
@@ -449,12 +489,12 @@ def run_case(case, replay=None):
             if iterative:
                 lo = 0 if kind == "gmm_kminit" else 1
                 for k in range(lo, K + 1):
-                    traj.append(_params(kind, _fit(ref, _make(ref, k, None), X.copy())))
+                    traj.append(_params(kind, _fit(ref, _make(ref, k, None), fresh())))
                 mem_cap = traj[-1]
-                mem_thr = _params(kind, _fit(ref, _make(ref, K, thr), X.copy())) \
+                mem_thr = _params(kind, _fit(ref, _make(ref, K, thr), fresh())) \
                     if thr is not None else None
             else:
-                mem_cap = _params(kind, _fit(ref, _make(ref, None, None), X.copy()))
+                mem_cap = _params(kind, _fit(ref, _make(ref, None, None), fresh()))
                 mem_thr = None
     except Exception as e:  # the in-memory path itself refuses this input
         mem_exc = e
@@ -489,7 +529,7 @@ def run_case(case, replay=None):
     def dask_fit(max_steps, t):
         def go():
             with np.errstate(all="ignore"):
-                m = _fit(case, _make(case, max_steps, t), _dask_X(case, X.copy()))
+                m = _fit(case, _make(case, max_steps, t), _dask_X(case, fresh()))
                 return _params(kind, m)
         return go
 
@@ -516,7 +556,7 @@ def run_case(case, replay=None):
         return Result.skip(skip, **rec.fields())
 
     rec.note([a for _, a, _ in d_cap])
-    bad = _cmp(mem_cap, d_cap, s, TOL)
+    bad = _cmp(mem_cap, d_cap, s, tol)
     if bad is not None:
         clause = "criterion" if bad[0] == "criterion" else "model"
         return Result.violation(clause, {"param": bad[0], "rel_diff": bad[1], "kind": kind,
@@ -532,9 +572,9 @@ def run_case(case, replay=None):
             d_thr = rec.run(sched, dask_fit(K, thr), label="thr")
             it_mem = _least_k(traj, mem_thr, s, 0.0, kind)
             rec.probe("stopped_early", it_mem is not None and it_mem < K)
-            bad = _cmp(mem_thr, d_thr, s, TOL)
+            bad = _cmp(mem_thr, d_thr, s, tol)
             if bad is not None:
-                it_d = _least_k(traj, d_thr, s, TOL, kind)
+                it_d = _least_k(traj, d_thr, s, tol, kind)
                 clause = "criterion" if bad[0] == "criterion" else "iterations"
                 return Result.violation(
                     clause, {"param": bad[0], "rel_diff": bad[1], "kind": kind, "thr": thr,
@@ -554,7 +594,7 @@ def run_case(case, replay=None):
                     raise
                 return Result.violation("dask-raises", {"exception": repr(e)[:300], "mode": mode,
                                                         "kind": kind}, **rec.fields())
-            bad = _cmp(d_cap, other, s, TOL_MODES)
+            bad = _cmp(d_cap, other, s, tol_modes)
             if bad is not None:
                 return Result.violation(
                     "executor-models-disagree",
